@@ -84,7 +84,8 @@ REGISTRY = {
                 "delete-mismatch, misordered hunks, git rename onto an existing file) x backup always/onfail/never/default x threads 1/2/4/16 x -q/default/-v x prior applied state x goal -a/N. "
                 "Non-trivial: the failing patch is not the first of the run, or it has several file entries; distinct by (workspace shape, configuration).",
         "floor": floors(("failing-patch-not-first", 100), ("multi-file-failing-patch", 100), ("runs-applying-everything", 100),
-                        ("failing-file-patch-followed-by-another-for-the-same-file:verbosity=default", 10), ("prior-applied-patches-file-without-final-newline", 50)),
+                        ("failing-file-patch-followed-by-another-for-the-same-file:verbosity=default", 10), ("prior-applied-patches-file-without-final-newline", 50), ("shape:patch-file-without-any-file-patch", 100),
+                        ("shape:empty-directories-in-the-starting-tree", 100)),
     },
     "C06": {
         "level_text": "differential: the same workspace pushed single-threaded and with N threads, naturally and under forced schedules (hook gates) that enumerate the run-ahead depth of the workers relative to the failing patch and perturb the save phase; tree, .pc, rejects, exit status compared; the realised interleaving is read back from the hook trace",
